@@ -239,7 +239,7 @@ ArrS = ArraySort(IntSort(), RealSort())
 def scalar_binop(op, x, y):
     if isinstance(x, FV) or isinstance(y, FV):
         nan = b_or(nan_of(x), nan_of(y))
-        r = scalar_binop(op, toR(x), toR(y))
+        r = scalar_binop(op, toR(x) if isinstance(x, FV) else x, toR(y) if isinstance(y, FV) else y)
         return FV(r, nan) if nan is not False else r
     if is_inf(x) or is_inf(y):
         raise Unsupported("arithmetic on infinity")
@@ -388,7 +388,7 @@ def lift(fn, *vals, kind=None):
     masks = [v.mask for v in vals if isinstance(v, T) and v.mask is not None]
     if masks:
         for m in masks[1:]:
-            if m[0] is not masks[0][0] or m[1] is not masks[0][1]:
+            if m[1] is not masks[0][1]:
                 raise Unsupported("operands selected by different masks")
         out.mask = masks[0]
     return out
